@@ -257,7 +257,8 @@ def run_record(ctx, h, inputs, tag):
     ipath = os.path.join(ctx.work, "jin-%s.ndjson" % tag)
     opath = os.path.join(ctx.work, "jrec-%s.ndjson" % tag)
     write_ndjson(ipath, inputs)
-    ctx.run_harness(h, "TestVerifQueryRecord", env={"VERIF_CASES": ipath, "VERIF_OUT": opath})
+    ctx.run_harness(h, "TestVerifQueryRecord", env={"VERIF_CASES": ipath, "VERIF_OUT": opath,
+                                                    "VERIF_SCHEME": ["default", "path", "history"][ctx.seed % 3]})
     recs = read_ndjson(opath)
     if len(recs) != len(inputs):
         raise Infra("record: %d inputs, %d records" % (len(inputs), len(recs)))
